@@ -7,6 +7,11 @@ job keys: scen, workers[list], shards (processes per worker count, quick), lane 
 W124 = [1, 2, 4]
 
 
+def S(scen, workers, shards=1, **kw):
+    """stress job: hooks left uninstalled (their atomics act as fences and hide store->load reorderings), no stall plans"""
+    return J(scen, workers, shards, no_hook=True, k=0, tk=0, random=0, trandom=0, nseeds=100000, tnseeds=100000, **kw)
+
+
 def J(scen, workers=W124, shards=1, lane='plain', **kw):
     d = {'scen': scen, 'workers': workers, 'shards': shards, 'lane': lane}
     d.update(kw)
@@ -15,17 +20,19 @@ def J(scen, workers=W124, shards=1, lane='plain', **kw):
 
 PLANS = {
     'C01': {'jobs': [J('spawn', W124, 2), J('spawnp', [2, 4], 2), J('spawn', [2, 4], 1, 'asan'), J('spawnp', [4], 1, 'asan'),
-                     J('spawn', [16], 1, thorough_only=True)]},
+                     J('spawn', [16], 1, thorough_only=True), J('spawn', [2, 4], 1, 'nosteal', thorough_only=True),
+                     J('spawn', [2, 4], 1, 'cbsteal', thorough_only=True), J('spawn', [2, 4], 1, 'randsteal', thorough_only=True)]},
     'C02': {'jobs': [J('park', W124, 4), J('park', [2], 1, 'asan')]},
-    'C05': {'jobs': [J('mutex', W124, 2), J('mutexc', W124, 2), J('mutexc', [2, 4], 1, 'asan')]},
+    'C05': {'jobs': [J('mutex', W124, 2), J('mutexc', W124, 2), J('mutexc', [2, 4], 1, 'asan'), S('hsmutex', [2, 4], 2)]},
     'C06': {'jobs': [J('chan', W124, 4), J('chan', [2], 2, 'asan')]},
     'C07': {'jobs': [J('dis', W124, 3), J('disrx', W124, 1), J('dis', [2], 1, 'asan')]},
     'C08': {'jobs': [J('tmr', W124, 3), J('tmrmix', W124, 1), J('tmr', [2, 4], 1, 'asan')]},
     'C09': {'jobs': [J('can', W124, 3), J('mutexc', [2], 1), J('semc', [1, 2], 1), J('cvc', [2], 1), J('rwc', [2], 1), J('iocan', [2], 1),
-                     J('can', [2, 4], 1, 'asan')]},
-    'C10': {'jobs': [J('sem', W124, 2), J('semc', W124, 1), J('flag', W124, 1), J('semc', [2], 1, 'asan')]},
+                     J('can', [2, 4], 1, 'asan'), S('hsmutex', [2], 1), S('hssem', [2], 1)]},
+    'C10': {'jobs': [J('sem', W124, 2), J('semc', W124, 1), J('flag', W124, 1), J('semc', [2], 1, 'asan'), S('hssem', [2, 4], 2)]},
     'C11': {'jobs': [J('cv', W124, 2), J('cvc', W124, 1), J('bar', W124, 1), J('cvc', [2], 1, 'asan')]},
-    'C12': {'jobs': [J('rwseq', [1], 2), J('rw', W124, 2), J('rwc', W124, 2)]},
+    'C12': {'jobs': [J('rwseq', [1], 2), J('rw', W124, 2), J('rwc', W124, 2), J('rwseq', [1], 1, 'rel'), J('rw', [2], 1, 'rel'),
+                     J('rw', [2, 4], 1, 'asan', thorough_only=True)]},
     'C13': {'jobs': [J('pan', W124, 3), J('pan', [2, 4], 2, 'asan')]},
     'C14': {'jobs': [J('scope', W124, 3), J('selc', W124, 1), J('scope', [2, 4], 1, 'asan'), J('selc', [2], 1, 'asan')]},
     'C15': {'jobs': [J('cls', W124, 3), J('pan', [2], 2), J('cls', [2, 4], 1, 'asan')]},
